@@ -874,6 +874,10 @@ class Pile(Widget, WidgetContainerMixin, WidgetContainerListContentsMixin):
             if i > 0:
                 y += sum(heights[:i])
 
+            if len(size) == 2 and y >= size[1]:
+                # a box too small for its contents is cut at the bottom: that row is not rendered
+                return None
+
             return x, y
 
         return None
